@@ -112,13 +112,13 @@ type BadA0Other struct {
 
 func (g *BadA0Other) BindRTCPReader(r interceptor.RTCPReader) interceptor.RTCPReader { return g.other }
 
-// GoodBuffering is listed in the checker's table of buffering interceptors.
-type GoodBuffering struct {
+// GoodA0Buffering is listed in the checker's table of buffering interceptors.
+type GoodA0Buffering struct {
 	interceptor.NoOp
 	q interceptor.RTPWriter
 }
 
-func (g *GoodBuffering) BindLocalStream(_ *interceptor.StreamInfo, w interceptor.RTPWriter) interceptor.RTPWriter {
+func (g *GoodA0Buffering) BindLocalStream(_ *interceptor.StreamInfo, w interceptor.RTPWriter) interceptor.RTPWriter {
 	return g.q
 }
 
@@ -128,12 +128,12 @@ type recorder struct{ n int }
 
 func (r *recorder) record(seq uint16) { r.n += int(seq) }
 
-type GoodA2 struct {
+type GoodAread struct {
 	interceptor.NoOp
 	rec recorder
 }
 
-func (g *GoodA2) BindRemoteStream(_ *interceptor.StreamInfo, r interceptor.RTPReader) interceptor.RTPReader {
+func (g *GoodAread) BindRemoteStream(_ *interceptor.StreamInfo, r interceptor.RTPReader) interceptor.RTPReader {
 	return interceptor.RTPReaderFunc(func(b []byte, a interceptor.Attributes) (int, interceptor.Attributes, error) {
 		n, attr, err := r.Read(b, a)
 		if err != nil {
